@@ -555,7 +555,8 @@ fn format_declarator(
 
             output.push('[');
             if let Some(expr) = array_size {
-                format_expression(expr, output, context)?;
+                // A comma expression must be parenthesised or it is not read back as one size
+                format_subexpression(expr, 17, OperatorSide::CommaList, output, context)?;
             }
             output.push(']');
             format_attributes(attributes, false, false, output, context)?;
